@@ -305,6 +305,49 @@ def match(real, line, tol=TOL):
         qs = [parse_rat(t) for t in toks[3:]]
         flat = [x for row in rows for x in row]
         return all(close(x, q, tol) for x, q in zip(flat, qs)), ""
+    if tag == "red":
+        return (rtag == "red" and real[1] == toks[1] and real[2] == (toks[2] if len(toks) > 2 else "")), ""
+    if tag == "self":
+        return (rtag == "self"), ""
+    if tag == "perm":
+        if rtag != "perm":
+            return False, "tag"
+        return (close(real[1], parse_rat(toks[1]), tol) and real[2] == (toks[3] if len(toks) > 3 else "")), ""
+    if tag == "dist":
+        if rtag != "dist":
+            return False, "tag"
+        ents = toks[2:]
+        if len(ents) != len(real[1]) or int(toks[1]) != len(real[1]):
+            return False, "len"
+        for (vals, bits), e in zip(real[1], ents):
+            q, b = e.split(":")
+            qs = [parse_rat(x) for x in q.split(",")]
+            if b != bits or len(qs) != len(vals) or not all(close(x, y, tol) for x, y in zip(vals, qs)):
+                return False, "entry"
+        return True, ""
+    if tag in ("wf", "cx"):
+        # complexity: positions exact, values exact rationals (cx) or entropy of the counts (wf)
+        if rtag != "mat" or len(real[1]) != 2:
+            return False, "tag"
+        import math
+        bar = toks.index("|")
+        if tag == "wf":
+            A, w, K = int(toks[1]), int(toks[2]), int(toks[3])
+            pos = [int(t) for t in toks[4:bar]]
+            vals = []
+            for t in toks[bar + 1:]:
+                cs = [int(x) for x in t.split(",")]
+                if A < 2:
+                    return False, "base-1"
+                vals.append(-math.fsum((c / w) * math.log(c / w, A) for c in cs if c > 0))
+        else:
+            K = int(toks[1])
+            pos = [int(t) for t in toks[2:bar]]
+            vals = [float(parse_rat(t)) for t in toks[bar + 1:]]
+        rp, rv = real[1]
+        if len(rp) != K or len(rv) != K or len(pos) != K or len(vals) != K:
+            return False, "len"
+        return (all(float(a) == float(b) for a, b in zip(rp, pos)) and all(close(a, b, tol) for a, b in zip(rv, vals))), ""
     if tag == "scdlag":
         # exact integer lag sums from the model; the square roots are taken here
         if rtag != "num":
